@@ -133,6 +133,12 @@ func (u *Unit) intrinsic(fr *Frame, st *State, fn *ssa.Function, args []Val, whe
 	case "time.After":
 		u.event(fr, st, "call time.After", map[string]Val{"d": args[0]}, where)
 		return &Scalar{T: u.fresh(SInt, "afterch"), Typ: sig.Results().At(0).Type(), Origin: "after", Aux: args[0]}
+	case "time.NewTimer":
+		// a one-shot timer is the same time-box as time.After(d); its channel is the C field
+		u.event(fr, st, "call time.NewTimer", map[string]Val{"d": args[0]}, where, "call time.After")
+		tm := u.fresh(SInt, "timer")
+		u.fact(fmt.Sprintf("(assert (> %s 0))", tm.S))
+		return &Scalar{T: tm, Typ: sig.Results().At(0).Type(), Origin: "timer", Aux: args[0]}
 	case "time.AfterFunc":
 		m := map[string]Val{"d": args[0], "f": args[1]}
 		u.event(fr, st, "call time.AfterFunc", m, where)
